@@ -275,6 +275,11 @@ def c04(res, tier, seed, replay):
         replay_run(res, replay)
         return
     rank_design(res, tier)
+    # key-level life cycle of a quantised vector store (what a cold read finds): Quant.tla
+    for cfg in ("Quant.bin.cfg", "Quant.binfixed.cfg", "Quant.pq.cfg", "Quant.graph.cfg"):
+        design_check(res, "Quant", cfg)
+    expect_design_violation(res, "Quant", "Quant.neg.cfg", "NoOrphan",
+                            "removing a point removes only the key it is 'stored under': the full-vector key of a point stored before the training stays behind")
     hist, batches, rank, nseeds = (3, 20, 4, 1) if tier == "quick" else (8, 25, 8, 4)
     runs = []
     for s in range(nseeds):
@@ -298,6 +303,15 @@ def c04(res, tier, seed, replay):
         sample_from_trace_nonempty(res, r["trace"], "Flat", cap=2)
     binding_selftest(res, results, mut_hit_distance("Flat"), what="reported distance of the first hit altered")
     binding_selftest(res, results, mut_drop_first_hit("Flat"), what="nearest hit dropped from an answer")
+
+    def mut_orphan(e):
+        # a full-vector key of a node that holds no live point
+        if e["ev"] == "VecKeys" and e["v"]:
+            e["v"] = sorted(e["v"] + [max(e["v"] + e["q"]) + 7])
+            return True
+        return False
+    binding_selftest(res, [r for r in results if "binlearn" in r["run"]["name"] or "pq" in r["run"]["name"]], mut_orphan,
+                     what="an orphan full-vector key added to the logged keys of a quantised store")
     res.coverage["rule"] = ("random write histories on flat indexes under all six metrics (integer-valued vectors so that "
                             "distances are exact integers; unit vectors for cosine; haversine against a float64 reference "
                             "table; jaccard within 2e-4); after every batch flat queries (limits 1..75, weights, no / id / leaf / "
